@@ -60,6 +60,7 @@ func runC01(w *World, r *Report, tier string) {
 	}
 	ruleWrapper(w, r, wrapperSpec{Wrapper: "shape.GetSpatialIdsOnPoints", Extended: "shape.GetExtendedSpatialIdsOnPoints", ZoomArg: 1, ExtH: 1, ExtV: 2, IDsArg: -1, PassArgs: [][2]int{{0, 0}}})
 	ruleElementwise(w, r, "shape.GetExtendedSpatialIdsOnPoints", 0)
+	ruleFoldExact(w, r, cl)
 	guardRows(w, r, "C01")
 }
 
